@@ -77,8 +77,11 @@ def mentions_err_guard(c):
 
 
 class SkelEval(Eval):
-    def __init__(self, ogp, model, options, src, include):
+    def __init__(self, ogp, model, options, src, include, extra_leaf=None):
         super().__init__(self._leaf, flag_types=S.load().flags, lenient=False)
+        self.extra_leaf = extra_leaf
+        self.accvars = {}
+        self._optp = None
         self.ogp = ogp
         self.m = model
         self.options = options
@@ -94,7 +97,13 @@ class SkelEval(Eval):
 
     # ---- leaves -----------------------------------------------------------------------------------------------------------------
     def _leaf(self, t):
+        if self.extra_leaf is not None:
+            r = self.extra_leaf(t)
+            if r is not None:
+                return r
         k = t[0]
+        if self.m is None and k in ('new', 'call', 'unwrap', 'is_ok', 'is_some'):
+            return None
         if k == 'param':
             for frame in reversed(self.params):
                 if (t[1], t[2]) in frame:
@@ -179,6 +188,32 @@ class SkelEval(Eval):
         for k in added:
             self.elems.pop(k, None)
             self.pos.pop(k, None)
+
+    def ev_fold(self, t):
+        # ('fold', src, eid, conds, init, accvar, step): acc = init; for elem in src (if conds): acc = step(acc, elem)
+        _, src, eid, conds, init, accvar, step = t
+        acc = self.ev(init)
+        items = self.iterable(self.ev(src), src)
+        saved = (self.elems.get(eid), self.pos.get(eid), self.accvars.get(accvar))
+        try:
+            for i, x in enumerate(items):
+                self.elems[eid] = x
+                self.pos[eid] = i
+                self.accvars[accvar] = acc
+                if all(self.truth(c) for c in conds):
+                    acc = self.ev(step)
+        finally:
+            for d, k, v in ((self.elems, eid, saved[0]), (self.pos, eid, saved[1]), (self.accvars, accvar, saved[2])):
+                if v is None:
+                    d.pop(k, None)
+                else:
+                    d[k] = v
+        return acc
+
+    def ev_accvar(self, t):
+        if t in self.accvars:
+            return self.accvars[t]
+        raise Unbound(t)
 
     def ev_any(self, t):
         st = t[1]
@@ -411,9 +446,15 @@ class SkelEval(Eval):
             return ('some', (l[0], l[1:])) if l else None
         if m == 'parse':
             return Tok(str(r))
+        if m == 'max' and args:
+            return max(r, self.ev(args[0]))
+        if m == 'min' and args:
+            return min(r, self.ev(args[0]))
         if m == 'max':
             l = self.iterable(r)
             return ('some', max(l)) if l else None
+        if m == 'count':
+            return len(self.iterable(r))
         if m == 'union':
             a, b = self.norm_flags(r), self.norm_flags(self.ev(args[0]))
             return Flags(a.ty, a.bits | b.bits)
@@ -847,7 +888,7 @@ def render_world(ogp, top_q, out_tmpl, model, opts, rep_, embed=True):
 def find_output_template(ogp):
     for q, v in ogp.summaries.items():
         for t in E.find_templates(v, lambda t: t[3] == q and sum(1 for it in t[2] if it[0] in ('hole', 'rep')) >= 10 and all(it[0] != 'tok' for it in t[2])):
-            if any('WriteOptions' in p['ty'] for p in ogp.crate.fns[q]['params']) and 'parse_str' in json.dumps(ogp.crate.fns[q]['body']):
+            if any('WriteOptions' in p['ty'] for p in ogp.crate.fns[q]['params']):
                 return q, t
     return None, None
 
